@@ -171,6 +171,14 @@ Theorem forwarded_request_head_is_equivalent :
 Proof. exact forwarded_request_round_trip_proof. Qed.
 Print Assumptions forwarded_request_head_is_equivalent.
 
+(* "same ... path": the target written is the origin-form of the client's path and query for every path (empty or absolute) and
+   query - an empty path is "/" also in front of a query, where the http crate's rendering does not supply it *)
+Theorem forwarded_target_is_origin_form :
+  forall (path : list N) query, (path = [] \/ exists p, path = (47 :: p)%N) ->
+    wire_target FWD_EMPTY_PATH_IS_SLASH (crate_as_str path query) = origin_form path query.
+Proof. exact wire_target_is_origin_form_proof. Qed.
+Print Assumptions forwarded_target_is_origin_form.
+
 (* GET /p with Proxy-Authorization, a Host the client chose and Accept, for the authority o.test: accepted, Host rewritten in
    place, no body; a second Host field or a second Content-Length is refused *)
 Example ex_forwarded_request :
